@@ -28,8 +28,8 @@ type pexpr struct {
 }
 
 var binOps = []struct {
-	tok, s           string
-	lv, lf, rt       int
+	tok, s     string
+	lv, lf, rt int
 }{
 	{"EqToken", "=", 1, 16, 1}, {"AddEqToken", "+=", 1, 16, 1}, {"MulEqToken", "*=", 1, 16, 1}, {"ExpEqToken", "**=", 1, 16, 1}, {"BitOrEqToken", "|=", 1, 16, 1},
 	{"AndEqToken", "&&=", 1, 16, 1}, {"OrEqToken", "||=", 1, 16, 1}, {"NullishEqToken", "??=", 1, 16, 1}, {"GtGtGtEqToken", ">>>=", 1, 16, 1},
